@@ -41,9 +41,19 @@ def pick_program(ctx, rnd, grammar, max_len=3000):
     else:
         fn, src = corpus.window(rnd, max_len=max_len)
     applied = []
+    if rnd.random() < 0.3:
+        s2 = corpus.mut_unicode(src, rnd)
+        if s2:
+            src, applied = s2, ['unicode']
     if rnd.random() < 0.5:
-        src, applied = corpus.relayout(src, rnd)
+        src, a2 = corpus.relayout(src, rnd)
+        applied += a2
     return fn, src, applied
+
+
+def re_search(pat, s):
+    import re
+    return re.search(pat, s, re.M)
 
 
 def edits_resolve(a, path):
@@ -83,6 +93,22 @@ def classify_c01(step, detail, root):
         import re
         if len(set(''.join(re.findall(r'^[ \t]+(?=\S)', root.src, re.M)))) > 1:
             return 'elif-expansion-uses-tree-indent-not-block-indent'
+    try:
+        ast.parse(root.src)
+    except SyntaxError as e:
+        if 'illegal target for annotation' in str(e) and re_search(r'^\s*\(+\s*\w+\s*\)+\s*[.\[]', root.src):
+            return 'annassign-target-base-left-as-parenthesized-name'
+    except Exception:
+        pass
+    if (step['ptype'] in ('With', 'AsyncWith') and step['field'] == 'items') or step.get('gptype') in ('With', 'AsyncWith'):
+        try:
+            ref = ast.parse(root.src)
+            live_items = [len(n.items) for n in ast.walk(root.a) if isinstance(n, (ast.With, ast.AsyncWith))]
+            ref_items = [len(n.items) for n in ast.walk(ref) if isinstance(n, (ast.With, ast.AsyncWith))]
+            if live_items != ref_items:
+                return 'with-sole-parenthesized-tuple-item-reparsed-as-items'
+        except SyntaxError:
+            pass
     if step['ptype'] == 'Try' and step['field'] == 'handlers':
         try:
             par = edits_resolve(root.a, step['path'][:-1])
